@@ -182,7 +182,7 @@ class C12(Prop):
         "src/pylife/stress/collective/load_collective.py",
         "src/pylife/stress/collective/load_histogram.py",
     ]
-    LEAN_MODULES = ["Proofs.C12"]
+    LEAN_MODULES = ["Proofs.C12", "Proofs.C12General"]
     PARALLEL = 8          # impl_lines / oracle are sharded over forked processes by core.pmap
     THEOREMS = [
         "PylifeVerif.C12.transform_conserves_potential",
@@ -193,18 +193,30 @@ class C12(Prop):
         "PylifeVerif.C12.goodman_path_independent",
         "PylifeVerif.C12.goodman_monotone_in_amplitude_fixed_R",
         "PylifeVerif.C12.goodman_closed_form_monotone_continuous",
+        # every gap-free diagram with exactly one segment beyond R = 1 (Proofs/C12General.lean): potential constructed, arrival proved
+        "PylifeVerif.C12.stdDiagram_has_potential",
+        "PylifeVerif.C12.transform_arrives",
+        "PylifeVerif.C12.transform_path_independent",
+        "PylifeVerif.C12.transform_idempotent",
+        "PylifeVerif.C12.transform_fixes_target",
+        "PylifeVerif.C12.transform_monotone_continuous_fixed_mean_std",
+        "PylifeVerif.C12.transform_monotone_in_amplitude_fixed_R",
+        "PylifeVerif.C12.fiveSegment_arrives_at_target",
+        "PylifeVerif.C12.fiveSegment_path_independent",
+        "PylifeVerif.C12.fiveSegment_idempotent",
+        "PylifeVerif.C12.fiveSegment_fixes_target_R",
+        "PylifeVerif.C12.fiveSegment_monotone_continuous_fixed_mean",
         "PylifeVerif.C12.transform_path_independent_partial",
         "PylifeVerif.C12.transform_fixes_target_partial",
         "PylifeVerif.C12.rebin_conserves_cycles",
         "PylifeVerif.C12.split_beyond_R1_fails_at_witness",
     ]
     PARTIAL = {
-        "PylifeVerif.C12.transform_path_independent_partial":
-            "arbitrary gap-free diagram (incl. five-segment): proved assuming an iso-damage potential h of the diagram (Compat) "
-            "and arrival at the target R; missing: construction of h and the arrival proof (order analysis of the sorted "
-            "segments) for a general segment list / the five-segment diagram - there the correspondence and the oracle are the evidence",
-        "PylifeVerif.C12.transform_fixes_target_partial":
-            "same two extra hypotheses (potential exists, run arrives at the target) for an arbitrary diagram",
+        "PylifeVerif.C12.transform_path_independent":
+            "full for every gap-free diagram in standard form (exactly one segment (1,inf] beyond R = 1, at least one border below 1, "
+            "positive iso-damage amplitude at every kink) in any listing order; NOT covered: diagrams with several segments beyond R = 1 - there "
+            "the real code does not follow the iso-damage lines (open finding split-beyond-R1, refuted in the kernel at the witness: "
+            "split_beyond_R1_fails_at_witness) - and the two-segment diagram {(1,inf], (-inf,1]}",
     }
     RULE = ("case 'cyc' = (diagram: FKM-Goodman M,M2 | five-segment 7 parameters | from_dict segments; interface range/mean or "
             "from/to frame; 1 or 2 successive targets incl. -inf and R > 1; cycles incl. those on every segment border and at "
